@@ -799,6 +799,32 @@ def rule_slice_assign_fit(repo):
     return rule_fit(repo)
 
 
+def rule_operand_kind(repo):
+    """BitsN classes are subclasses of Bits: a case split that recognises a Bits operand by its exact type sends BitsN values down
+    the integer path, where only the value -- not the width -- is checked."""
+    r = RuleResult('R-C04-operand-kind', "every case split on the kind of an operand recognises Bits by isinstance (subclasses BitsN "
+                                         "included), never by exact type")
+    m, cls, meths = _bits(repo)
+    n_inst = 0
+    for name, f in sorted(meths.items()):
+        for t in walk_no_nested(f):
+            if isinstance(t, ast.Call) and norm(t.func) == 'isinstance' and len(t.args) == 2 and 'Bits' in norm(t.args[1]):
+                n_inst += 1
+            bad = None
+            if isinstance(t, ast.Compare) and len(t.ops) == 1 and isinstance(t.ops[0], (ast.Is, ast.IsNot, ast.Eq, ast.NotEq)):
+                l, rr = norm(t.left), norm(t.comparators[0])
+                for a, b in ((l, rr), (rr, l)):
+                    if b == 'Bits' and (a.startswith('type(') or a.endswith('.__class__')):
+                        bad = t
+            if bad is not None:
+                r.bad(m, f"Bits.{name}", norm(bad), "exact-type test on an operand: an instance of a BitsN subclass (Bits8(3), mk_bits(n)(v)) is not "
+                      "recognised as Bits and takes the integer path -- a value of the wrong width that happens to fit is accepted silently", bad.lineno)
+    if n_inst:
+        r.ok(m, 'Bits', f"{n_inst} isinstance tests on Bits operands")
+    r.require_floor(1)
+    return r
+
+
 def rule_result_is_value(repo):
     """every operator returns a fresh Bits (an identity shortcut such as `x >> 0 -> self` makes the result change with a later
     in-place write to the operand); in-place operators return self.  Shared with C05 (R-C05-value)."""
@@ -806,7 +832,7 @@ def rule_result_is_value(repo):
     return rule_value_semantics(repo)
 
 
-RULES = [rule_range, rule_guard, rule_optable, rule_tables, rule_exhaustive, rule_shiftbound, rule_slice_assign_fit, rule_result_is_value]
+RULES = [rule_range, rule_guard, rule_optable, rule_tables, rule_exhaustive, rule_shiftbound, rule_slice_assign_fit, rule_result_is_value, rule_operand_kind]
 
 
 # ---------------------------------------------------------------------------
@@ -816,6 +842,8 @@ def _m(name, old, new, rule=None, file=BITS, count=1):
 
 
 MUTANTS = [
+    _m('setitem-exact-type-test', "    if isinstance( idx, slice ):\n      if idx.step:\n        raise IndexError( \"Index cannot contain step\" )\n      try:\n        start = 0 if idx.start is None else int(idx.start)\n        stop  = self._nbits if idx.stop is None else int(idx.stop)\n        assert 0 <= start < stop <= self._nbits\n      except:\n        raise IndexError( f\"Invalid access: [{idx.start}:{idx.stop}] in a Bits{self._nbits} instance\" )\n\n      slice_nbits = stop - start\n      if isinstance( v, Bits ):",
+       "    if isinstance( idx, slice ):\n      if idx.step:\n        raise IndexError( \"Index cannot contain step\" )\n      try:\n        start = 0 if idx.start is None else int(idx.start)\n        stop  = self._nbits if idx.stop is None else int(idx.stop)\n        assert 0 <= start < stop <= self._nbits\n      except:\n        raise IndexError( f\"Invalid access: [{idx.start}:{idx.stop}] in a Bits{self._nbits} instance\" )\n\n      slice_nbits = stop - start\n      if type( v ) is Bits:", 'R-C04-operand-kind'),
     _m('ctor-store-before-check', "      up = _upper[nbits]\n\n      if not trunc_int:\n        lo = _lower[nbits]\n        if v < lo or v > up:\n          raise ValueError( f\"Value {hex(v)} is too wide for Bits{nbits}!\\n\" \\\n                            f\"(Bits{nbits} only accepts {hex(lo)} <= value <= {hex(up)})\" )\n      self._uint = v & up",
        "      up = _upper[nbits]\n      self._uint = v & up\n\n      if not trunc_int:\n        lo = _lower[nbits]\n        if v < lo or v > up:\n          raise ValueError( f\"Value {hex(v)} is too wide for Bits{nbits}!\\n\" \\\n                            f\"(Bits{nbits} only accepts {hex(lo)} <= value <= {hex(up)})\" )", 'R-C04-guard'),
     _m('lshift-shortcut-removed', "      uint = other._uint\n      if uint >= nbits:\n        return _new_valid_bits( self._nbits, 0 )\n", "      uint = other._uint\n", 'R-C04-shiftbound'),
